@@ -6,7 +6,7 @@
    matrix_from_callback are the executable model (coq/Cli_Model.v). *)
 From Coq Require Import String Ascii List ZArith QArith Bool Arith Permutation.
 From TK Require Import Cli_Model Cli_Spec Cli_Argv_Model Cli_Argv_Spec Cli_Proof_Argv Cli_Proof_Decide Cli_Proof_Files Cli_Proof_Transpose
-  Cli_Proof_Pre Cli_Proof_Main Cli_Proof_Exit Cli_Proof_Round Cli_Proof_Perm Cli_Proof_IntIO Cli_Proof_Shape Cli_Proof_Gen Cli_IntParse_Model Cli_Proof_IntParse Cli.
+  Cli_Proof_Pre Cli_Proof_Main Cli_Proof_Exit Cli_Proof_Round Cli_Proof_Perm Cli_Proof_IntIO Cli_Proof_Shape Cli_Proof_Gen Cli_IntParse_Model Cli_Proof_IntParse Cli_Proof_ArgvInt Cli.
 Import ListNotations.
 Local Close Scope Q_scope.
 Local Open Scope string_scope.
@@ -208,6 +208,38 @@ Print Assumptions cli_int_option_rejects.
 Theorem cli_int_option_wrap_quirk : int_parse "4772185890" = Some 477218594%Z.
 Proof. exact int_parse_wrap_quirk. Qed.
 Print Assumptions cli_int_option_wrap_quirk.
+
+(* the whole chain, from the real argv to the library parameter: scanner, integer_parser, option table, wiring *)
+Theorem cli_argv_k_is_the_number_written : forall (dq : string -> option Q) s ps io,
+  is_empty s = false -> all_digits s = true -> (digits_val s 0 <= 2147483647)%Z ->
+  cli_decide_argv (rd_int dq) gen_options gen_tables ["-k"; s] = Run ps io ->
+  assoc "num_neighbors" ps = Some (VInt (digits_val s 0%Z)) /\ (3 <= digits_val s 0)%Z.
+Proof. exact argv_k_decimal. Qed.
+Print Assumptions cli_argv_k_is_the_number_written.
+
+Example cli_argv_k_is_the_number_written_nonvacuous :
+  exists ps io, cli_decide_argv (rd_int (fun _ => None)) gen_options gen_tables ["-k"; "12"] = Run ps io /\
+                assoc "num_neighbors" ps = Some (VInt 12).
+Proof. eexists. eexists. split; vm_compute; reflexivity. Qed.
+
+Theorem cli_argv_td_is_the_number_written : forall (dq : string -> option Q) s ps io,
+  is_empty s = false -> all_digits s = true -> (digits_val s 0 <= 2147483647)%Z ->
+  cli_decide_argv (rd_int dq) gen_options gen_tables ["--target-dimension"; s] = Run ps io ->
+  assoc "target_dimension" ps = Some (VInt (digits_val s 0%Z)) /\ (0 < digits_val s 0)%Z.
+Proof. exact argv_td_decimal. Qed.
+Print Assumptions cli_argv_td_is_the_number_written.
+
+Example cli_argv_td_is_the_number_written_nonvacuous :
+  exists ps io, cli_decide_argv (rd_int (fun _ => None)) gen_options gen_tables ["--target-dimension"; "3"] = Run ps io.
+Proof. eexists. eexists. vm_compute. reflexivity. Qed.
+
+Theorem cli_argv_k_not_an_int_exits : forall (dq : string -> option Q) s, int_parse s = None ->
+  cli_decide_argv (rd_int dq) gen_options gen_tables ["-k"; s] = Exit 1%Z.
+Proof. exact argv_k_not_an_int. Qed.
+Print Assumptions cli_argv_k_not_an_int_exits.
+
+Example cli_argv_k_not_an_int_exits_nonvacuous : int_parse "1.5" = None /\ int_parse "0x" = None.
+Proof. split; vm_compute; reflexivity. Qed.
 
 (* ---- files: rows <-> lines ---- *)
 Theorem cli_read_token_matrix : forall (V : Type) (parse : string -> option V) d (tm : list (list string)),
@@ -449,7 +481,6 @@ Print Assumptions cli_ragged_rows_exit.
    not one of the characters of the file *)
 Example cli_ragged_rows_exit_nonvacuous :
   let parse := fun s : string => if all_digits s && negb (is_empty s) then Some s else None in
-  let content := "1" ++ String nl ("2" ++ String nl "") in
   exists d r0 rows i r,
       parse_rows string parse d (lines_fixed ("1,2" ++ String nl ("3" ++ String nl ""))) = r0 :: rows /\
       nth_error (r0 :: rows) i = Some r /\ length r <> length r0.
